@@ -537,6 +537,11 @@ def mtype_class(mt: str) -> str:
     std = set(tag_families()["mtypes"])
     if mt in std:
         return "standard"
+    mg = magic_texts()
+    if mt in mg["fmsg_names"] or mt in mg["enum_names"]:
+        return "enum-member-name"
+    if mt in mg["py"]:
+        return "python-text"
     if mt.strip() in std or mt.strip("\x00 \t\r\n\x0b\x0c\x1c\x1d\x1e\x1f\xa0\x85") in std:
         return "padded-standard"
     if mt.lower() in {x.lower() for x in std} or mt.lstrip("0") in std:
@@ -544,11 +549,70 @@ def mtype_class(mt: str) -> str:
     return "custom"
 
 
+PY_TEXTS = ["None", "True", "False", "nan", "inf", "-inf", "NaN", "null", "NULL", "nil", "NotImplemented", "Ellipsis", "...",
+            "[]", "{}", "()", "b'x'", "b''", "''", '""', "0", "0.0", "-0", "-0.0", "00", "1e3", "none", "NONE", " None", "None ",
+            "undefined", "<class 'str'>", "#err#", "%s", "%d", "{}=", "{0}", "\\x01", "\\n", "N/A", "-", "?", " ", "  ", "\t",
+            "\n", "\xa0", "\x00", "\r\n", " a", "a ", "a  b"]
+_MAGIC = None
+
+
+def magic_texts():
+    """texts that mean something to Python or to the library itself: the NAME (and value) of every member of every
+    Enum the asyncfix package defines (FMsg / FTag / FOrdStatus / ConnectionState ... names), the names of its
+    exception classes, and repr-like / empty-looking / whitespace texts.  {"fmsg_names", "enum_names", "py"}"""
+    global _MAGIC
+    if _MAGIC is not None:
+        return _MAGIC
+    import enum
+    import importlib
+    import pkgutil
+    fmsg, names = [], set()
+    try:
+        import asyncfix
+        mods = [asyncfix]
+        for mi in pkgutil.walk_packages(asyncfix.__path__, "asyncfix."):
+            try:
+                mods.append(importlib.import_module(mi.name))
+            except Exception:
+                pass
+        for m in mods:
+            for nm, obj in vars(m).items():
+                if isinstance(obj, type) and issubclass(obj, enum.Enum) and obj.__module__.startswith("asyncfix"):
+                    for mem in obj.__members__:
+                        (fmsg if obj.__name__ == "FMsg" else names).add(mem) if obj.__name__ != "FMsg" else fmsg.append(mem)
+                    names.add(obj.__name__)
+                elif isinstance(obj, type) and issubclass(obj, Exception) and obj.__module__.startswith("asyncfix"):
+                    names.add(nm)
+    except Exception:
+        pass
+    _MAGIC = {"fmsg_names": sorted(set(fmsg)) or ["LOGON", "IOI", "NEWS", "EMAIL"], "enum_names": sorted(names) or ["Symbol", "Text"],
+              "py": PY_TEXTS}
+    return _MAGIC
+
+
+def gen_magic(rng: random.Random, for_mtype=False) -> str:
+    mg = magic_texts()
+    r = rng.random()
+    if r < (0.5 if for_mtype else 0.15):
+        v = rng.choice(mg["fmsg_names"])
+    elif r < (0.65 if for_mtype else 0.4):
+        v = rng.choice(mg["enum_names"])
+    else:
+        v = rng.choice(mg["py"][:12] if rng.random() < 0.5 else mg["py"])
+    if rng.random() < 0.08:
+        v = rng.choice([v.lower(), v.capitalize(), v + " ", "FMsg." + v, "FTag." + v])
+    return v
+
+
 def gen_mtype(rng: random.Random) -> str:
     """MsgType text: the small fixed list, any type the repository's FMsg declares, a standard type padded with
     blanks / control characters or respelled (case, leading zero), and custom types"""
     fam = tag_families()
     r = rng.random()
+    if r < 0.08:
+        v = gen_magic(rng, True)
+        if v and wf_value(v):
+            return v
     if r < 0.45:
         return rng.choice(MTYPES)
     if r < 0.65:
@@ -617,6 +681,8 @@ def tag_families():
 
 def gen_value(rng: random.Random) -> str:
     r = rng.random()
+    if r < 0.09:
+        return gen_magic(rng)
     if r < 0.15:
         return rng.choice(FRAMING_LIKE) + "".join(rng.choice(VALUE_ALPHABET) for _ in range(rng.randint(0, 4)))
     if r < 0.2:
